@@ -34,6 +34,8 @@ import Vata.RenameCoded
 import Vata.InclDownStack
 import Vata.Proofs.InclDownStackStepsTop
 import Vata.UnionIsectMaps
+import Vata.UnionIsectMapsBU
+import Vata.ReduceCoded
 /-!
 # vdriver – the model side of the correspondence check
 
@@ -325,12 +327,15 @@ def checkMapsX (args res : List String) : Except String (Findings × String) := 
       if ok0 && pf then
         if !(← getE (isIsectM P A B FUEL) "fuel(isect)") then f := f ++ ["mismatch prefilled-isect language (inside pmapOkB ∧ prefillOkB: C02_isect_prefilled_lang)"]
     else
-      match isectBUFrom A B m0 (4 * (A.rules.length + 1) * (B.rules.length + 1) + m0.length + 8) with
-      | some (Pm, _) =>
+      -- `isectBUFromRef` is total for EVERY entry map (`C02_isectBU_prefilled_total`) and exact for `pmapOkB` maps (`C02_isectBU_prefilled_lang`)
+      match isectBUFromRef A B m0 with
+      | some (Pm, mm) =>
         if ok0 && !(← equivE Pm P) then f := f ++ [s!"mismatch prefilled-isectbu language differs from the model: model={showTA Pm}"]
-      | none => f := f ++ ["mismatch prefilled-isectbu model out of fuel"]
-      if ok0 && m0.isEmpty then
-        if !(← getE (isIsectM P A B FUEL) "fuel(isect)") then f := f ++ ["violation isectbu-language"]
+        if ok0 && (mm.length != m.length || Pm.states.length != P.states.length) then f := f ++ [s!"mismatch prefilled-isectbu sizes differ from the model: model={showTA Pm}"]
+      | none => throw "internal: isectBUFromRef returned none (proved impossible)"
+      if ok0 then
+        if !(← getE (isIsectM P A B FUEL) "fuel(isect)") then
+          f := f ++ [if m0.isEmpty then "violation isectbu-language" else "mismatch prefilled-isectbu language (inside pmapOkB: C02_isectBU_prefilled_lang)"]
     pure (f, s!"mapsx={mode} mapok={bchar ok0} prefillok={bchar pf} prefilled={m0.length}")
 
 def checkTrim (args res : List String) : Except String (Findings × String) := do
@@ -395,6 +400,13 @@ def checkReduce (args res : List String) : Except String (Findings × String) :=
     if f.isEmpty && (M'.states.length != R.states.length || (dedupRules M'.rules).length != (dedupRules R.rules).length) then
       f := f ++ [s!"mismatch reduce pipeline model sizes: model {M'.states.length} states / {(dedupRules M'.rules).length} rules, implementation {R.states.length} / {(dedupRules R.rules).length}"]
   | none => f := f ++ ["mismatch reduce pipeline model returned none"]
+  -- `Reduce` END TO END on the store (`Vata/ReduceCoded.lean`: simulation pipeline → matrix class → `CollapseStates` as the loops over the
+  -- three-level store with the throwing `at` → `RemoveUnreachableStates` with its work-list and shortcut; `C05_fully_coded_*`)
+  match ReduceCoded.reduceFullyCodedTA A with
+  | some Mc =>
+    if f.isEmpty && (Mc.states.length != R.states.length || (dedupRules Mc.rules).length != (dedupRules R.rules).length) then
+      f := f ++ [s!"mismatch fully coded Reduce sizes: model {Mc.states.length} states / {(dedupRules Mc.rules).length} rules, implementation {R.states.length} / {(dedupRules R.rules).length}"]
+  | none => f := f ++ ["mismatch fully coded Reduce model threw / returned none (proved impossible: C05_fully_coded_total)"]
   let M := reduceModel A A.states
   if f.isEmpty && (M.states.length != R.states.length || (dedupRules M.rules).length != (dedupRules R.rules).length) then
     f := f ++ [s!"mismatch reduce-model sizes: model {M.states.length} states / {(dedupRules M.rules).length} rules, implementation {R.states.length} / {(dedupRules R.rules).length}"]
